@@ -222,8 +222,19 @@ Section P.
     intros H. destruct e as [version encoding|dname sysid pubid| |name attrs byte_index|name byte_index|ch| | |target data]; cbn; auto.
     - unfold on_xml_decl, root_exists in *. brk; auto.
     - unfold on_start_doctype, root_exists in *. brk; auto.
-    - unfold on_start_element, push_frame, root_exists in *.
-      brk; respine; auto; first [left; discriminate | right; discriminate].
+    - assert (T : forall c1, root_exists c1 -> root_exists (start_child c1 name attrs)).
+      { intros c1 H1. unfold start_child, push_frame, root_exists in *.
+        brk; respine; auto; first [left; discriminate | right; discriminate]. }
+      unfold on_start_element. cbv zeta.
+      match goal with |- context [flush_binary ?x] => set (c1 := x) end.
+      assert (H1 : root_exists c1).
+      { subst c1. unfold root_exists in *. brk; respine; auto. }
+      clearbody c1.
+      repeat match goal with
+             | |- root_exists (start_child _ _ _) => apply T, flush_root_exists
+             | |- root_exists (match ?x with _ => _ end) => destruct x eqn:?
+             | |- root_exists (if ?x then _ else _) => destruct x eqn:?
+             end; auto; unfold root_exists in *; cbn; respine; auto; first [left; discriminate | right; discriminate].
     - unfold on_end_element. apply flush_root_exists in H. set (cf := flush_binary c) in *. clearbody cf.
       unfold leave_current.
       repeat match goal with
@@ -258,8 +269,12 @@ Section P.
       destruct (is_embedded_name name && negb match c_spine c1 with [] => true | _ => false end) eqn:EM.
       { right; right; right. apply andb_true_iff in EM. destruct EM as [_ EM]. cbn. rewrite <- S1.
         destruct (c_spine c1); [discriminate|]. split; [discriminate|reflexivity]. }
-      destruct (WBXML_MAX_NESTING_DEPTH <=? N.of_nat (List.length (c_spine c1))); cbn; auto.
-      destruct (c_lang c1); cbn; auto. destruct (resolve_tag l name).
+      destruct (flush_binary_fields c1) as (_ & _ & _ & _ & FK & _).
+      set (cf := flush_binary c1) in *. clearbody cf.
+      assert (K2 : c_skip_lvl cf = c_skip_lvl c) by congruence.
+      unfold start_child. destruct (negb (c_error cf =? WBXML_OK)); auto.
+      destruct (WBXML_MAX_NESTING_DEPTH <=? N.of_nat (List.length (c_spine cf))); cbn; auto.
+      destruct (c_lang cf); cbn; auto. destruct (resolve_tag l name).
       unfold push_frame. brk; auto.
     - unfold on_end_element. destruct (flush_binary_fields c) as (_ & _ & _ & _ & FK & _).
       set (cf := flush_binary c) in *. clearbody cf.
@@ -295,7 +310,15 @@ Section P.
     intros Hsub HI HM. destruct e as [version encoding|dname sysid pubid| |name attrs byte_index|name byte_index|ch| | |target data]; cbn; auto.
     - unfold on_xml_decl. brk; auto.
     - unfold on_start_doctype. brk; auto.
-    - unfold on_start_element, push_frame. brk; auto; discriminate.
+    - assert (T : forall c1, c_error c1 <> E_OUTSIDE_MODEL -> c_error (start_child c1 name attrs) <> E_OUTSIDE_MODEL).
+      { intros c1 H1. unfold start_child, push_frame. brk; auto; discriminate. }
+      unfold on_start_element. cbv zeta.
+      match goal with |- context [flush_binary ?x] => set (c1 := x) end.
+      assert (H1 : c_error c1 <> E_OUTSIDE_MODEL). { subst c1. brk; auto; discriminate. }
+      clearbody c1.
+      assert (H2 : c_error (flush_binary c1) <> E_OUTSIDE_MODEL).
+      { destruct (flush_binary_fields c1) as (_ & _ & _ & _ & _ & _ & [E|E]); rewrite E; [exact H1|discriminate]. }
+      repeat match goal with |- c_error (if ?x then _ else _) <> _ => destruct x end; cbn; auto.
     - unfold on_end_element.
       assert (HIf : skip_inv (flush_binary c)).
       { unfold skip_inv. destruct (flush_binary_fields c) as (_ & _ & _ & _ & -> & _). intros K. apply flush_root_exists. now apply HI. }
